@@ -4,7 +4,7 @@
 import RigoProofs.C10Tm
 open Std
 
-namespace Rigo.C14
+namespace Rigo.C14L
 
 open Delegatee
 
@@ -199,4 +199,4 @@ theorem doSlash_total_le (d : Delegatee) (ratio : Int) (hnd : HashNodup d.stakes
         simp only [List.map_cons, List.sum_cons]; omega
   exact key d.stakes hp
 
-end Rigo.C14
+end Rigo.C14L
